@@ -1300,6 +1300,9 @@ func (pc ParseContext) compilePackage(ctx context.Context, b ast.Branch, c ast.C
 
 	if pkgpath := pkg.One("PKGPATH"); pkgpath != nil {
 		scanner := pkgpath.One("").(ast.Leaf).Scanner()
+		if arraictx.IsSandboxed(ctx) {
+			return nil, fmt.Errorf("imports are not available in sandboxed evaluation: %s", scanner)
+		}
 		var decoderTuple rel.Tuple
 		if e := pkg.One("decoder"); e != nil {
 			encoder, err := pc.CompileExpr(ctx, e.One("expr").(ast.Branch))
